@@ -1,14 +1,19 @@
 // models.h -- shared multibody model alphabet (DESIGN.md §2.1) for C01-C10, C14, C15, C21, C43.
 //
 // Discrete dimensions the O(n) code branches on, enumerated completely:
-//   KIND (mobilizer type incl. Custom / FunctionBased mirrors) x DIR (forward/reversed)
-//   x FRAMES (the four <noX_MB,noR_PF> template specialisations) x COORD (quaternion/Euler)
+//   KIND (mobilizer type incl. Custom / FunctionBased mirrors of built-ins with a CONSTANT hinge matrix, FunctionBased
+//   mobilizers with NONLINEAR coordinate functions for every mobility count 1..6 and a Custom mobilizer whose hinge
+//   matrix depends on q -- H(q), HDot != 0) x DIR (forward/reversed)
+//   x FRAMES (the four <noX_MB,noR_PF> template specialisations; sections of single Ground-attached bodies also take
+//   the four "one part only" frame pairs that distinguish the conjuncts of the flag tests) x COORD (quaternion/Euler)
 //   x MASS x TOPOLOGY (chains and forks of <= 3 mobilized bodies, a few larger templates)
 // Continuous values (q, u, frames, mass properties) come from fixed finite tables.
 #ifndef VERIF_MODELS_H_
 #define VERIF_MODELS_H_
 
 #include "Simbody.h"
+#include <cmath>
+#include <limits>
 #include <memory>
 #include <string>
 #include <typeinfo>
@@ -21,18 +26,32 @@ enum Kind {
     KPin, KSlider, KUniversal, KCylinder, KBendStretch, KPlanar, KGimbal, KBushing, KBall, KFree,
     KLineOrientation, KFreeLine, KTranslation, KScrew, KSphericalDefault, KSphericalCustom,
     KEllipsoid, KCantilever, KWeld, KCustomPin, KCustomBall, KCustomTranslation, KFBPin, KFBPlanar,
-    NKIND
+    // user-defined mobilizers whose hinge matrix depends on q (HDot != 0): FunctionBased with nonlinear coordinate functions
+    // and 1..6 mobilities (rotation functions of one coordinate each, translation functions of several), Custom "helix slider"
+    KFBN1, KFBN2, KFBN3, KFBN4, KFBN5, KFBN6, KCustomHelix,
+    NKIND,
+    // FunctionBased usages that the documentation allows but the unchanged library gets wrong (notes/C02.md, notes/C03.md);
+    // NOT part of kindDirs(): enumerated only by the harness whose property they violate (defectKindDirs())
+    KFBCoupled3 = NKIND,   // every rotation function depends on two coordinates
+    KFBConstRot2,          // a non-zero CONSTANT x-rotation function in front of two coordinate-driven rotations
+    NKIND_ALL
 };
 inline const char* kindName(int k) {
     static const char* n[] = {"Pin", "Slider", "Universal", "Cylinder", "BendStretch", "Planar", "Gimbal", "Bushing", "Ball", "Free",
         "LineOrientation", "FreeLine", "Translation", "Screw", "SphericalDefault", "SphericalCustom",
-        "Ellipsoid", "CantileverFreeBeam", "Weld", "CustomPin", "CustomBall", "CustomTranslation", "FBPin", "FBPlanar"};
-    return (k >= 0 && k < NKIND) ? n[k] : "?";
+        "Ellipsoid", "CantileverFreeBeam", "Weld", "CustomPin", "CustomBall", "CustomTranslation", "FBPin", "FBPlanar",
+        "FBN1", "FBN2", "FBN3", "FBN4", "FBN5", "FBN6", "CustomHelix", "FBCoupled3", "FBConstRot2"};
+    return (k >= 0 && k < NKIND_ALL) ? n[k] : "?";
 }
 inline bool kindHasQuaternion(int k) { return k == KBall || k == KFree || k == KLineOrientation || k == KFreeLine || k == KEllipsoid || k == KCustomBall; }
 inline bool kindIsBuiltIn(int k) { return k < KCustomPin; }
 // kinds for which Direction=Reverse is accepted by the constructor
+// (the three Custom mirrors are kept forward-only; the newer user-defined kinds are built in both directions)
 inline bool kindReversible(int k) { return k != KWeld && k != KCustomPin && k != KCustomBall && k != KCustomTranslation; }
+// user-defined kinds with a q-dependent hinge matrix (added after the mirrors)
+inline bool kindIsNonlinearUserDefined(int k) { return k >= KFBN1 && k < NKIND_ALL; }
+inline bool kindIsFunctionBasedNonlinear(int k) { return (k >= KFBN1 && k <= KFBN6) || k == KFBCoupled3 || k == KFBConstRot2; }
+inline bool kindIsDefectExposing(int k) { return k == KFBCoupled3 || k == KFBConstRot2; }
 
 // ---------------------------------------------------------------- Custom mirrors (copied in spirit from the documented Custom API)
 class CustomPinImpl : public MobilizedBody::Custom::Implementation {
@@ -108,6 +127,216 @@ public:
     }
 };
 
+// ---------------------------------------------------------------- user-defined mobilizers with a q-dependent hinge matrix
+// (1) Custom "helix slider", 2 mobilities.  Documented here (this comment is the mobilizer's documentation; C05 checks the
+//     library-computed pose against refMobilizerTransform below, which is written separately from the Implementation):
+//       q0 = angle phi about the common z axis, q1 = radial travel;  R_FM = Rz(phi),
+//       p_FM = ( (R0+q1) cos phi, (R0+q1) sin phi, PITCH*phi )   i.e. M's origin runs on a helix of variable radius and M's
+//       x axis stays radial;  qdot = u.
+//     As the Custom API asks, H and HDot are computed from X_FM and V_FM (getMobilizerTransform / getMobilizerVelocity, which
+//     must return the AS-DEFINED quantities when the mobilizer is reversed), never from q directly:
+//       H    = [ z , 0 ; z x p + PITCH z , x_M ]          HDot = [ 0 , 0 ; z x v_FM , w_FM x x_M ]
+class CustomHelixImpl : public MobilizedBody::Custom::Implementation {
+public:
+    static Real R0() { return 0.9; }
+    static Real PITCH() { return 0.25; }
+    explicit CustomHelixImpl(SimbodyMatterSubsystem& m) : Implementation(m, 2, 2, 1) {}
+    Implementation* clone() const override { return new CustomHelixImpl(*this); }
+    Transform calcMobilizerTransformFromQ(const State&, int, const Real* q) const override {
+        const Real r = R0() + q[1];
+        return Transform(Rotation(q[0], ZAxis), Vec3(r * std::cos(q[0]), r * std::sin(q[0]), PITCH() * q[0]));
+    }
+    SpatialVec multiplyByHMatrix(const State& s, int, const Real* u) const override {
+        const Transform X = getMobilizerTransform(s); const Vec3 z(0, 0, 1);
+        return SpatialVec(u[0] * z, u[0] * (z % X.p() + PITCH() * z) + u[1] * Vec3(X.x()));
+    }
+    void multiplyByHTranspose(const State& s, const SpatialVec& F, int, Real* f) const override {
+        const Transform X = getMobilizerTransform(s); const Vec3 z(0, 0, 1);
+        f[0] = ~z * F[0] + ~(z % X.p() + PITCH() * z) * F[1];
+        f[1] = ~Vec3(X.x()) * F[1];
+    }
+    SpatialVec multiplyByHDotMatrix(const State& s, int, const Real* u) const override {
+        const Transform X = getMobilizerTransform(s); const SpatialVec V = getMobilizerVelocity(s); const Vec3 z(0, 0, 1);
+        return SpatialVec(Vec3(0), u[0] * (z % V[1]) + u[1] * (V[0] % Vec3(X.x())));
+    }
+    void multiplyByHDotTranspose(const State& s, const SpatialVec& F, int, Real* f) const override {
+        const Transform X = getMobilizerTransform(s); const SpatialVec V = getMobilizerVelocity(s); const Vec3 z(0, 0, 1);
+        f[0] = ~(z % V[1]) * F[1];
+        f[1] = ~(V[0] % Vec3(X.x())) * F[1];
+    }
+    // closed-form fits (the default implementation runs an optimizer): nearest representable pose / velocity
+    void setQToFitTransform(const State&, const Transform& X_FM, int, Real* q) const override {
+        q[0] = std::atan2(X_FM.R()[1][0], X_FM.R()[0][0]);
+        q[1] = X_FM.p()[0] * std::cos(q[0]) + X_FM.p()[1] * std::sin(q[0]) - R0();
+    }
+    void setUToFitVelocity(const State& s, const SpatialVec& V_FM, int, Real* u) const override {
+        const Transform X = getMobilizerTransform(s);
+        u[0] = V_FM[0][2]; u[1] = ~Vec3(X.x()) * V_FM[1];
+    }
+};
+
+// (2) FunctionBased with nonlinear coordinate functions.  One table (FnSpec) describes each of the six functions; it is turned
+//     into library Function objects (Function::Constant / Linear / Polynomial / Sinusoid, and SmoothFn below for several
+//     arguments) by makeFunction(), and evaluated INDEPENDENTLY in long double by refFunction() for the reference pose.
+struct FnSpec {
+    char type = 'K';         // 'K' constant c | 'L' Function::Linear  c + sum a_k x_k | 'P' Function::Polynomial, a[0..np) in decreasing powers
+                             // 'S' Function::Sinusoid a[0]*sin(a[1]*x + a[2]) | 'N' SmoothFn  c + sum_k (a_k x_k + s_k sin(x_k + p_k)) + d sum_{k<l} x_k x_l
+    int nargs = 0; int args[3] = {0, 0, 0};       // which of the mobilizer's q's are the arguments, in order
+    double c = 0, a[3] = {0, 0, 0}, s[3] = {0, 0, 0}, p[3] = {0, 0, 0}, d = 0; int np = 0;
+};
+inline FnSpec fnK(double c) { FnSpec f; f.type = 'K'; f.c = c; return f; }
+inline FnSpec fnL(std::vector<int> args, std::vector<double> a, double c) { FnSpec f; f.type = 'L'; f.nargs = (int)args.size(); for (int i = 0; i < f.nargs; ++i) { f.args[i] = args[i]; f.a[i] = a[i]; } f.c = c; return f; }
+inline FnSpec fnP(int arg, std::vector<double> coef) { FnSpec f; f.type = 'P'; f.nargs = 1; f.args[0] = arg; f.np = (int)coef.size(); for (int i = 0; i < f.np; ++i) f.a[i] = coef[i]; return f; }
+inline FnSpec fnS(int arg, double amp, double w, double ph) { FnSpec f; f.type = 'S'; f.nargs = 1; f.args[0] = arg; f.a[0] = amp; f.a[1] = w; f.a[2] = ph; return f; }
+inline FnSpec fnN(std::vector<int> args, double c, std::vector<double> a, std::vector<double> s, std::vector<double> p, double d) {
+    FnSpec f; f.type = 'N'; f.nargs = (int)args.size(); f.c = c; f.d = d;
+    for (int i = 0; i < f.nargs; ++i) { f.args[i] = args[i]; f.a[i] = a[i]; f.s[i] = s[i]; f.p[i] = p[i]; }
+    return f;
+}
+// smooth multi-argument function with exact derivatives of every order
+class SmoothFn : public Function {
+public:
+    explicit SmoothFn(const FnSpec& f) : f(f) {}
+    Real calcValue(const Vector& x) const override {
+        Real v = f.c;
+        for (int k = 0; k < f.nargs; ++k) v += f.a[k] * x[k] + f.s[k] * std::sin(x[k] + f.p[k]);
+        for (int k = 0; k < f.nargs; ++k) for (int l = k + 1; l < f.nargs; ++l) v += f.d * x[k] * x[l];
+        return v;
+    }
+    Real calcDerivative(const Array_<int>& dc, const Vector& x) const override {
+        const int n = (int)dc.size();
+        if (n == 1) { const int k = dc[0]; Real v = f.a[k] + f.s[k] * std::cos(x[k] + f.p[k]); for (int l = 0; l < f.nargs; ++l) if (l != k) v += f.d * x[l]; return v; }
+        bool same = true; for (int i = 1; i < n; ++i) if (dc[i] != dc[0]) same = false;
+        if (n == 2 && !same) return f.d;
+        if (!same) return 0;
+        const int k = dc[0];
+        return f.s[k] * std::sin(x[k] + f.p[k] + n * (Pi / 2));      // n-th derivative of sin
+    }
+    int getArgumentSize() const override { return f.nargs; }
+    int getMaxDerivativeOrder() const override { return std::numeric_limits<int>::max(); }
+    SmoothFn* clone() const override { return new SmoothFn(*this); }
+private:
+    FnSpec f;
+};
+inline Function* makeFunction(const FnSpec& f) {
+    switch (f.type) {
+        case 'L': { Vector c(f.nargs + 1); for (int i = 0; i < f.nargs; ++i) c[i] = f.a[i]; c[f.nargs] = f.c; return new Function::Linear(c); }
+        case 'P': { Vector c(f.np); for (int i = 0; i < f.np; ++i) c[i] = f.a[i]; return new Function::Polynomial(c); }
+        case 'S': return new Function::Sinusoid(f.a[0], f.a[1], f.a[2]);
+        case 'N': return new SmoothFn(f);
+        default: return new Function::Constant(f.c, 0);
+    }
+}
+// independent evaluation (long double, written from the formulas in the FnSpec comment, not from the classes above)
+inline long double refFunction(const FnSpec& f, const long double* q) {
+    long double x[3] = {0, 0, 0}; for (int k = 0; k < f.nargs; ++k) x[k] = q[f.args[k]];
+    switch (f.type) {
+        case 'L': { long double v = f.c; for (int k = 0; k < f.nargs; ++k) v += (long double)f.a[k] * x[k]; return v; }
+        case 'P': { long double v = 0; for (int i = 0; i < f.np; ++i) v += (long double)f.a[i] * powl(x[0], (long double)(f.np - 1 - i)); return v; }
+        case 'S': return (long double)f.a[0] * sinl((long double)f.a[1] * x[0] + (long double)f.a[2]);
+        case 'N': { long double v = f.c;
+            for (int k = 0; k < f.nargs; ++k) v += (long double)f.a[k] * x[k] + (long double)f.s[k] * sinl(x[k] + (long double)f.p[k]);
+            for (int k = 0; k < f.nargs; ++k) for (int l = k + 1; l < f.nargs; ++l) v += (long double)f.d * x[k] * x[l];
+            return v; }
+        default: return f.c;
+    }
+}
+struct FBSpec {
+    int nm = 0; FnSpec f[6];      // order (documented): x rotation, y rotation, z rotation, x translation, y translation, z translation
+    bool customAxes = false; double axes[6][3] = {{1, 0, 0}, {0, 1, 0}, {0, 0, 1}, {1, 0, 0}, {0, 1, 0}, {0, 0, 1}};   // not normalised
+};
+inline void fbCustomAxes(FBSpec& S) {
+    static const double A[6][3] = {{1, 0.2, 0}, {0, 1, 0.3}, {0.1, 0, 1}, {1, 0, 0.4}, {0.2, 1, 0}, {0, -0.3, 1}};
+    S.customAxes = true; for (int i = 0; i < 6; ++i) for (int j = 0; j < 3; ++j) S.axes[i][j] = A[i][j];
+}
+// The rotation functions of FBN1..FBN6 take ONE coordinate each (x rotation <- q0, y rotation <- q1, z rotation <- q2 resp. the
+// next free coordinate), which is the only arrangement whose HDot the unchanged library computes correctly; the translation
+// functions couple several coordinates.  All functions are smooth with derivatives of size <= ~1.5 so that 4th-order
+// differences with step 1e-3 are accurate to ~1e-12.
+inline FBSpec fbSpec(int kind) {
+    FBSpec S;
+    const FnSpec rx = fnN({0}, 0.1, {1.0}, {0.3}, {0.2}, 0), ry = fnN({1}, -0.2, {0.8}, {0.25}, {-0.4}, 0), rz = fnN({2}, 0.0, {1.1}, {-0.2}, {0.5}, 0);
+    const FnSpec rxA = fnN({0}, 0.0, {0.9}, {0.25}, {-0.3}, 0), ryA = fnN({1}, -0.1, {1.1}, {-0.2}, {0.4}, 0), rzA = fnN({2}, 0.05, {1.0}, {0.15}, {0.1}, 0);
+    switch (kind) {
+        case KFBN1: S.nm = 1;
+            S.f[0] = fnK(0); S.f[1] = fnK(0); S.f[2] = fnN({0}, 0.1, {1.0}, {0.3}, {0.2}, 0);
+            S.f[3] = fnP(0, {0.3, 0.5, 0.1}); S.f[4] = fnS(0, 0.4, 1.3, -0.2); S.f[5] = fnK(0.25); break;
+        case KFBN2: S.nm = 2; fbCustomAxes(S);
+            S.f[0] = rxA; S.f[1] = ryA; S.f[2] = fnK(0);
+            S.f[3] = fnN({0, 1}, 0, {0.5, 0.2}, {0.3, 0.2}, {0, 0.3}, 0.4); S.f[4] = fnK(0); S.f[5] = fnL({1, 0}, {0.6, -0.3}, 0.05); break;
+        case KFBN3: S.nm = 3;
+            S.f[0] = rx; S.f[1] = fnK(0); S.f[2] = fnN({1}, 0.0, {1.1}, {-0.2}, {0.5}, 0);
+            S.f[3] = fnL({0, 1}, {0.3, -0.2}, 0.1); S.f[4] = fnN({2, 0}, 0, {1.0, 0.2}, {0.2, 0.1}, {0.3, 0}, 0.3); S.f[5] = fnP(2, {0.25, 0.2, 0}); break;
+        case KFBN4: S.nm = 4; fbCustomAxes(S);
+            S.f[0] = rxA; S.f[1] = ryA; S.f[2] = rzA;
+            S.f[3] = fnN({3, 0, 1}, 0, {1.0, 0.2, -0.1}, {0.2, 0.1, 0.1}, {0, 0.2, 0.4}, 0.15); S.f[4] = fnN({3, 2}, 0.1, {0.3, 0.4}, {0.1, -0.2}, {0.5, 0}, 0.2); S.f[5] = fnK(0.1); break;
+        case KFBN5: S.nm = 5;
+            S.f[0] = rx; S.f[1] = ry; S.f[2] = rz;
+            S.f[3] = fnN({3, 4, 0}, 0, {1.0, 0.2, 0.1}, {0.2, 0.1, -0.1}, {0.1, 0, 0.3}, 0.2); S.f[4] = fnN({4, 1}, 0, {1.0, -0.3}, {-0.15, 0.2}, {0.2, 0.1}, 0.25);
+            S.f[5] = fnN({3, 2}, 0.05, {0.3, 0.5}, {0.1, 0.1}, {0, 0.4}, -0.2); break;
+        case KFBN6: S.nm = 6; fbCustomAxes(S);
+            S.f[0] = rxA; S.f[1] = ryA; S.f[2] = rzA;
+            S.f[3] = fnN({3, 4, 0}, 0, {1.0, 0.2, 0.1}, {0.2, 0.1, -0.1}, {0.1, 0, 0.3}, 0.2); S.f[4] = fnN({4, 5, 1}, 0, {1.0, -0.2, 0.15}, {-0.15, 0.1, 0.1}, {0.2, 0.3, 0}, 0.15);
+            S.f[5] = fnN({5, 3, 2}, 0, {1.0, 0.25, -0.1}, {0.1, -0.1, 0.2}, {0, 0.4, 0.1}, -0.2); break;
+        case KFBCoupled3: S.nm = 3;      // every rotation function takes two coordinates (the header's own example: coordIndices[2] = {0, 1})
+            S.f[0] = fnN({0, 1}, 0.1, {1.0, 0.3}, {0.3, 0.1}, {0.2, 0.1}, 0.2); S.f[1] = fnN({1, 2}, -0.2, {0.8, -0.2}, {0.25, 0.1}, {-0.4, 0.3}, 0.1); S.f[2] = fnN({2, 0}, 0.0, {1.1, 0.4}, {-0.2, 0.2}, {0.5, 0}, -0.15);
+            S.f[3] = fnN({0, 1}, 0, {0.5, 0.2}, {0.3, 0.2}, {0, 0.3}, 0.4); S.f[4] = fnN({1, 2}, 0, {-0.3, 0.6}, {0.2, -0.1}, {0.1, 0}, 0.3); S.f[5] = fnL({2, 0}, {0.7, 0.2}, 0); break;
+        case KFBConstRot2: S.nm = 2;     // constant (zero-argument) x rotation of 0.4 rad, then y rotation by f(q0), z rotation by g(q1)
+            S.f[0] = fnK(0.4); S.f[1] = fnN({0}, -0.2, {0.8}, {0.25}, {-0.4}, 0); S.f[2] = fnN({1}, 0.0, {1.1}, {-0.2}, {0.5}, 0);
+            S.f[3] = fnK(0.3); S.f[4] = fnN({0, 1}, 0, {-0.3, 0.6}, {0.2, -0.1}, {0.1, 0}, 0.3); S.f[5] = fnK(0); break;
+        default: break;
+    }
+    return S;
+}
+inline int kindNumMobilitiesUserDefined(int kind) { return kind == KCustomHelix ? 2 : fbSpec(kind).nm; }
+
+// Reference pose X_FM(q) of the user-defined kinds above in the direction they are DEFINED (long double; closed form).
+// FunctionBased (MobilizedBody_FunctionBased.h): the six functions give, in order, the x, y, z rotation and the x, y, z translation;
+// the rotations are applied as a body-fixed sequence about the (normalised) axes 0..2, the translation is the sum of the
+// translation values along the (normalised) axes 3..5:   R_FM = Rot(f0,a0) Rot(f1,a1) Rot(f2,a2),  p_FM = f3 a3 + f4 a4 + f5 a5.
+struct RefX { long double R[3][3]; long double p[3]; };
+inline void refAxisRotation(long double angle, const long double n[3], long double R[3][3]) {      // Rodrigues
+    const long double c = cosl(angle), s = sinl(angle);
+    const long double K[3][3] = {{0, -n[2], n[1]}, {n[2], 0, -n[0]}, {-n[1], n[0], 0}};
+    for (int i = 0; i < 3; ++i) for (int j = 0; j < 3; ++j) R[i][j] = (i == j ? c : 0) + (1 - c) * n[i] * n[j] + s * K[i][j];
+}
+inline bool refMobilizerTransform(int kind, const std::vector<long double>& q, RefX& X) {
+    if (kind == KCustomHelix) {
+        if (q.size() != 2) return false;
+        const long double c = cosl(q[0]), s = sinl(q[0]), r = (long double)CustomHelixImpl::R0() + q[1];
+        const long double R[3][3] = {{c, -s, 0}, {s, c, 0}, {0, 0, 1}};
+        for (int i = 0; i < 3; ++i) for (int j = 0; j < 3; ++j) X.R[i][j] = R[i][j];
+        X.p[0] = r * c; X.p[1] = r * s; X.p[2] = (long double)CustomHelixImpl::PITCH() * q[0];
+        return true;
+    }
+    if (!kindIsFunctionBasedNonlinear(kind)) return false;
+    const FBSpec S = fbSpec(kind);
+    if ((int)q.size() != S.nm) return false;
+    long double v[6], ax[6][3];
+    for (int i = 0; i < 6; ++i) {
+        v[i] = refFunction(S.f[i], q.data());
+        long double n = sqrtl((long double)S.axes[i][0] * S.axes[i][0] + (long double)S.axes[i][1] * S.axes[i][1] + (long double)S.axes[i][2] * S.axes[i][2]);
+        for (int j = 0; j < 3; ++j) ax[i][j] = (long double)S.axes[i][j] / n;
+    }
+    long double R0[3][3], R1[3][3], R2[3][3], T[3][3];
+    refAxisRotation(v[0], ax[0], R0); refAxisRotation(v[1], ax[1], R1); refAxisRotation(v[2], ax[2], R2);
+    for (int i = 0; i < 3; ++i) for (int j = 0; j < 3; ++j) { T[i][j] = 0; for (int k = 0; k < 3; ++k) T[i][j] += R0[i][k] * R1[k][j]; }
+    for (int i = 0; i < 3; ++i) for (int j = 0; j < 3; ++j) { X.R[i][j] = 0; for (int k = 0; k < 3; ++k) X.R[i][j] += T[i][k] * R2[k][j]; }
+    for (int j = 0; j < 3; ++j) X.p[j] = v[3] * ax[3][j] + v[4] * ax[4][j] + v[5] * ax[5][j];
+    return true;
+}
+inline MobilizedBody addFunctionBasedNonlinear(MobilizedBody& parent, const Transform& X_PF, const Body& body, const Transform& X_BM, int kind, MobilizedBody::Direction d) {
+    const FBSpec S = fbSpec(kind);
+    std::vector<const Function*> f; std::vector<std::vector<int> > ci; std::vector<Vec3> axes;
+    for (int i = 0; i < 6; ++i) {
+        f.push_back(makeFunction(S.f[i]));
+        std::vector<int> a; for (int k = 0; k < S.f[i].nargs; ++k) a.push_back(S.f[i].args[k]); ci.push_back(a);
+        axes.push_back(Vec3(S.axes[i][0], S.axes[i][1], S.axes[i][2]));
+    }
+    if (S.customAxes) return MobilizedBody::FunctionBased(parent, X_PF, body, X_BM, S.nm, f, ci, axes, d);
+    return MobilizedBody::FunctionBased(parent, X_PF, body, X_BM, S.nm, f, ci, d);
+}
+
 // ---------------------------------------------------------------- value tables
 inline Transform frameTable(int i) {   // i: 0 identity, 1 rotated only, 2 translated only, 3 general
     switch (i) {
@@ -142,6 +371,9 @@ struct BodySpec {
     int kind = KPin;
     int dir = 0;        // 0 forward, 1 reversed
     int frames = 0;     // 0: X_BM=I,X_PF=I  1: X_BM=I,X_PF rotated  2: X_BM general, X_PF translated  3: general,general
+                        // "one part only" pairs (NFRAMES..NFRAMES_ALL-1), which tell the conjuncts of the frame-flag tests apart:
+                        // 4: X_PF=I, X_BM pure rotation   5: X_PF pure translation, X_BM=I   6: X_PF=I, X_BM pure translation
+                        // 7: X_PF pure rotation, X_BM pure rotation
     int mass = 0;
     int parent = -1;    // index of parent in the spec list, -1 = Ground
     std::string str() const {
@@ -160,11 +392,16 @@ struct Model {
     std::string str() const { std::string s = euler ? "euler[" : "quat["; for (auto& b : specs) s += b.str() + " "; return s + "]"; }
 };
 
+enum { NFRAMES = 4, NFRAMES_ALL = 8 };
 inline void specFrames(const BodySpec& b, Transform& X_PF, Transform& X_BM) {
     switch (b.frames) {
         case 0: X_PF = Transform(); X_BM = Transform(); break;
         case 1: X_PF = frameTable(1); X_BM = Transform(); break;
         case 2: X_PF = frameTable(2); X_BM = frameTableB(3); break;
+        case 4: X_PF = Transform(); X_BM = frameTableB(1); break;
+        case 5: X_PF = frameTable(2); X_BM = Transform(); break;
+        case 6: X_PF = Transform(); X_BM = frameTableB(2); break;
+        case 7: X_PF = frameTable(1); X_BM = frameTableB(1); break;
         default: X_PF = frameTable(3); X_BM = frameTableB(3); break;
     }
 }
@@ -197,6 +434,9 @@ inline MobilizedBody addBody(Model& M, const BodySpec& b) {
         case KCustomPin: return MobilizedBody::Custom(parent, new CustomPinImpl(M.matter), X_PF, body, X_BM);
         case KCustomBall: return MobilizedBody::Custom(parent, new CustomBallImpl(M.matter), X_PF, body, X_BM);
         case KCustomTranslation: return MobilizedBody::Custom(parent, new CustomTranslationImpl(M.matter), X_PF, body, X_BM);
+        case KCustomHelix: return MobilizedBody::Custom(parent, new CustomHelixImpl(M.matter), X_PF, body, X_BM, d);
+        case KFBN1: case KFBN2: case KFBN3: case KFBN4: case KFBN5: case KFBN6: case KFBCoupled3: case KFBConstRot2:
+            return addFunctionBasedNonlinear(parent, X_PF, body, X_BM, b.kind, d);
         case KFBPin: case KFBPlanar: {
             std::vector<const Function*> f; std::vector<std::vector<int> > ci;
             // order: x rot, y rot, z rot, x trans, y trans, z trans
@@ -316,12 +556,28 @@ inline BodySpec companion(int c) {
     b.mass = c % 3;
     return b;
 }
-// all (kind,dir) variants that exist
+// all (kind,dir) variants that exist (the defect-exposing FunctionBased usages are listed separately)
 inline std::vector<std::pair<int, int> > kindDirs() {
     std::vector<std::pair<int, int> > v;
     for (int k = 0; k < NKIND; ++k) { v.push_back({k, 0}); if (kindReversible(k)) v.push_back({k, 1}); }
     return v;
 }
+inline std::vector<std::pair<int, int> > defectKindDirs() {
+    std::vector<std::pair<int, int> > v;
+    for (int k = NKIND; k < NKIND_ALL; ++k) { v.push_back({k, 0}); v.push_back({k, 1}); }
+    return v;
+}
+// Level S: every variant alone on Ground x ALL eight frame pairs (the only place where the "one part only" pairs 4..7 occur:
+// the frame flags <noX_MB,noR_PF> and the lone-particle test are decided per body from its own two frames, a single
+// Ground-attached leaf reaches all of them).  index space: variant x frames(8)
+struct LevelS {
+    std::vector<std::pair<int, int> > kd = kindDirs();
+    int64_t size() const { return (int64_t)kd.size() * NFRAMES_ALL; }
+    std::vector<BodySpec> specs(int64_t idx, int massSel = 0) const {
+        BodySpec b; b.frames = (int)(idx % NFRAMES_ALL); idx /= NFRAMES_ALL; b.kind = kd[idx].first; b.dir = kd[idx].second; b.mass = massSel; b.parent = -1;
+        return {b};
+    }
+};
 // Level A: variant (kind,dir,frames) placed as base / middle / tip of a 3-chain with companions (c1,c2) in {Pin,Ball,Free}^2,
 // or (role 3) as a branch of a fork.  index space: variant x frames(4) x role(4) x c1(3) x c2(3)
 struct LevelA {
@@ -339,14 +595,38 @@ struct LevelA {
         return s;
     }
 };
-// Level B: all ordered parent->child pairs kind^2 x dir^2 x frames in {0,3}^2
+// Level B: all ordered parent->child pairs over the variants with a constant hinge matrix (built-ins and mirrors):
+// kind^2 x dir^2 x frames in {0,3}^2; then, for every variant with a q-dependent hinge matrix (FBN1..6, CustomHelix; all of one
+// node class RBNodeCustom<nu,..>), both orders with every partner of the 8 code families of level C x dir, frames {II,GG}
+// (both bodies), and all ordered pairs among themselves with general frames.
 struct LevelB {
     std::vector<std::pair<int, int> > kd = kindDirs();
-    int64_t size() const { return (int64_t)kd.size() * kd.size() * 4; }
+    std::vector<int> base, ext, partners;
+    LevelB() {
+        const int fam[8] = {KPin, KSlider, KBall, KFree, KUniversal, KPlanar, KEllipsoid, KWeld};
+        for (int i = 0; i < (int)kd.size(); ++i) {
+            if (kindIsNonlinearUserDefined(kd[i].first)) ext.push_back(i); else base.push_back(i);
+            for (int f : fam) if (kd[i].first == f) partners.push_back(i);
+        }
+    }
+    int64_t nBase() const { return (int64_t)base.size() * base.size() * 4; }
+    int64_t nMixed() const { return (int64_t)ext.size() * partners.size() * 2 * 2; }
+    int64_t size() const { return nBase() + nMixed() + (int64_t)ext.size() * ext.size(); }
     std::vector<BodySpec> specs(int64_t idx, int massSel = 0) const {
-        int f2 = idx % 2; idx /= 2; int f1 = idx % 2; idx /= 2; int k2 = idx % kd.size(); idx /= kd.size(); int k1 = (int)idx;
-        BodySpec a, b; a.kind = kd[k1].first; a.dir = kd[k1].second; a.frames = f1 ? 3 : 0; a.mass = massSel; a.parent = -1;
-        b.kind = kd[k2].first; b.dir = kd[k2].second; b.frames = f2 ? 3 : 0; b.mass = (massSel + 1) % 3; b.parent = 0;
+        int k1, k2, fr1, fr2;
+        if (idx < nBase()) {
+            int f2 = idx % 2; idx /= 2; int f1 = idx % 2; idx /= 2; k2 = base[idx % base.size()]; idx /= base.size(); k1 = base[idx];
+            fr1 = f1 ? 3 : 0; fr2 = f2 ? 3 : 0;
+        } else if (idx < nBase() + nMixed()) {
+            idx -= nBase();
+            int f = idx % 2; idx /= 2; int order = idx % 2; idx /= 2; int p = partners[idx % partners.size()]; idx /= partners.size(); int e = ext[idx];
+            k1 = order ? p : e; k2 = order ? e : p; fr1 = fr2 = f ? 3 : 0;
+        } else {
+            idx -= nBase() + nMixed();
+            k2 = ext[idx % ext.size()]; k1 = ext[idx / ext.size()]; fr1 = fr2 = 3;
+        }
+        BodySpec a, b; a.kind = kd[k1].first; a.dir = kd[k1].second; a.frames = fr1; a.mass = massSel; a.parent = -1;
+        b.kind = kd[k2].first; b.dir = kd[k2].second; b.frames = fr2; b.mass = (massSel + 1) % 3; b.parent = 0;
         return {a, b};
     }
 };
